@@ -89,7 +89,8 @@ class EvalMainContext(object):
         return self._hashes[path]
 
     def is_authorized_path(self, cp: CanonicalPath) -> bool:
-        for idx in range(len(self.whitelisted_packages)):
+        # Try every prefix of the path (the bound is the length of the path, not the number of packages).
+        for idx in range(len(cp._path.parts) + 1):
             if ".".join(cp._path.parts[:idx]) in self.whitelisted_packages:
                 return True
         return False
